@@ -24,11 +24,20 @@ OTHER_EVENTS = ["PrintPaused", "PrintResumed", "Connected", "ZChange", "Upload"]
 SCRIPT_TEXTS = {
     "enter": [("M117 ENTER ; entering\n\n", ["M117 ENTER"]),
               ("; comment only\nM300 S440 P10\n  M117 ENTER  \n", ["M300 S440 P10", "M117 ENTER"]),
+              # lines that are not G/M/T commands (host macros) belong to the script too
+              ("SET_LED RED=1 ; macro\nM117 ENTER\n", ["SET_LED RED=1", "M117 ENTER"]),
+              ("EXCLUDE_START", ["EXCLUDE_START"]),
               (None, []), ("", [])],
     "exit": [("M117 EXIT", ["M117 EXIT"]),
+             ("M117 EXIT\r\nSET_LED RED=0 ; macro\r\n", ["M117 EXIT", "SET_LED RED=0"]),
              ("M300 S880 P10 ; beep\r\nM117 EXIT\r\n", ["M300 S880 P10", "M117 EXIT"]),
              (None, []), ("\n\n", [])],
 }
+
+
+INTERLEAVED_AT = [("ExcludeRegion", r"^\s*(disable|off)(\s|$)", "disable_exclusion"),
+                  ("excluderegion", r"^\s*(disable|off)(\s|$)", "disable_exclusion"),
+                  ("ExcludeRegion", r"^\s*(enable|on)(\s|$)", "enable_exclusion")]
 
 
 class History(object):
@@ -61,8 +70,11 @@ class PluginGen(object):
         if key == "at":
             # the @-command action table: default, custom (see gen_motion.CUSTOM_AT) or empty
             from harness.rig import DEFAULT_AT
+            # (INTERLEAVED: a lower-case alias sorts between the two entries of ExcludeRegion --
+            # the settings keep the table sorted by upper-cased command, matching is exact)
             table = rng.choice([list(DEFAULT_AT), list(gen_motion.CUSTOM_AT),
-                                list(gen_motion.CUSTOM_AT), []])
+                                list(gen_motion.CUSTOM_AT), [], list(INTERLEAVED_AT),
+                                list(reversed(INTERLEAVED_AT))])
             value = [{"command": c, "parameterPattern": p, "action": a, "description": ""}
                      for c, p, a in table]
             self.steps.append(("set", "atCommandActions", value, [list(t) for t in table]))
@@ -79,9 +91,14 @@ class PluginGen(object):
             return
         if key in ("clearAfter", "mayShrink"):
             value = rng.random() < 0.5
+            raw = value
+            if rng.random() < 0.3:
+                # the value as a REST client or a hand-edited config.yaml may store it
+                raw = rng.choice(["true", "yes", "1", 1] if value else ["false", "no", "0", 0,
+                                                                         "False"])
             self.steps.append(("set", {"clearAfter": "clearRegionsAfterPrintFinishes",
                                        "mayShrink": "mayShrinkRegionsWhilePrinting"}[key],
-                               value, None))
+                               raw, value))
             self.store[key] = value
         elif key in ("enter", "exit"):
             text, cmds = rng.choice(SCRIPT_TEXTS[key])
@@ -110,6 +127,13 @@ class PluginGen(object):
                 payload = dict(self.lastFile)
             self.lastFile = payload
             self.steps.append(("pev", name, payload))
+        elif name == "PrintStarted":
+            # OctoPrint's payload: the job may come from local storage or from the printer's SD card
+            last = getattr(self, "lastFile", None) or {}
+            fname = last.get("name", "benchy.gcode")
+            self.steps.append(("pev", name, self.rng.choice([
+                {}, {"name": fname, "path": fname, "origin": "local", "size": 1234, "owner": "x"},
+                {"name": fname, "path": fname, "origin": "sdcard"}])))
         elif name == "PrintFailed":
             # OctoPrint also sends PrintFailed (reason "cancelled") after a cancellation, and on
             # its own when the job dies of an error
@@ -135,13 +159,53 @@ class PluginGen(object):
         spec = gen_motion.region_spec(reg, rid)
         if rid is None:
             del spec["id"]
+        if self.rng.random() < 0.15:
+            # JSON clients may send the numbers as ints or as numeric strings
+            for key in ("x1", "y1", "x2", "y2", "cx", "cy", "r"):
+                if key in spec:
+                    spec[key] = repr(spec[key]) if spec[key] != int(spec[key]) or \
+                        self.rng.random() < 0.5 else int(spec[key])
         return spec
 
     def act_api(self):
         rng = self.rng
         kind = rng.choice(["add", "add", "update", "update", "update", "delete", "bad", "anon",
-                           "dupadd", "unknown", "other"])
+                           "dupadd", "unknown", "other", "typed"])
         gen = gen_motion.MotionGen(rng.randint(0, 10 ** 9))
+        if kind == "typed":
+            # the same id value in two JSON types (a number and its text) names two regions;
+            # later requests address one of them
+            num = rng.choice([7, 3, 0])
+            ids = [num, str(num)]
+            rng.shuffle(ids)
+            for rid in ids:
+                if not any(r.get("id") == rid and type(r.get("id")) is type(rid)
+                           for r in self.regions):
+                    reg = dict(gen.make_region())
+                    self.steps.append(("api", "addExcludeRegion", self.region_data(reg, rid),
+                                       False))
+                    reg["id"] = rid
+                    self.regions.append(reg)
+            target = rng.choice(ids)
+            old = [r for r in self.regions
+                   if r.get("id") == target and type(r.get("id")) is type(target)][0]
+            if rng.random() < 0.6:
+                new = self.vary_region(old)
+                self.steps.append(("api", "updateExcludeRegion", self.region_data(new, target),
+                                   False))
+                if not (self.active and not self.applied["mayShrink"]):
+                    new = dict(new)
+                    new["id"] = target
+                    if new["t"] == "rect":
+                        new["x1"], new["x2"] = min(new["x1"], new["x2"]), max(new["x1"], new["x2"])
+                        new["y1"], new["y2"] = min(new["y1"], new["y2"]), max(new["y1"], new["y2"])
+                    self.regions[self.regions.index(old)] = new
+            else:
+                self.steps.append(("api", "deleteExcludeRegion", {"id": target}, False))
+                if not (self.active and not self.applied["mayShrink"]):
+                    self.regions.remove(old)
+            self.steps.append(("get",))
+            return
         if kind == "add" or (kind in ("update", "delete", "dupadd") and not self.regions):
             reg = gen.make_region()
             roll = rng.random()
@@ -151,7 +215,7 @@ class PluginGen(object):
             elif roll < 0.85:
                 # ids that are legal but falsy / not strings (a client may send any JSON value);
                 # repeated on purpose: the second add of the same one has to be refused
-                rid = rng.choice([0, "", 0, 7])
+                rid = rng.choice([0, "", 0, 7, "7", "0", 7])
             else:
                 rid = None
             self.steps.append(("api", "addExcludeRegion", self.region_data(reg, rid), False))
@@ -358,6 +422,45 @@ class PluginGen(object):
                 self.steps.append(("hook", "gcode", "afterPrintDone"))
                 self.event(rng.choice(END_EVENTS))
                 return
+        if known and self.exactOnly and rng.random() < (0.3 if self.focus == "at" else 0.08):
+            # the configured disable command, a move into a region (forwarded when the command
+            # is configured), the enable command, a move out and in again
+            reg = rng.choice(known)
+            if reg["t"] == "rect":
+                tx, ty = (reg["x1"] + reg["x2"]) // 2, (reg["y1"] + reg["y2"]) // 2
+            else:
+                tx, ty = reg["cx"], reg["cy"]
+            off, on = (("Excl", "stop"), ("Excl", "go")) if custom else \
+                (("ExcludeRegion", rng.choice(["disable", "off"])),
+                 ("ExcludeRegion", rng.choice(["enable", "on"])))
+            self.steps.append(("g", "G90", {}))
+            self.steps.append(("g", "G1 X1 Y1", {}))
+            self.steps.append(("at", off[0], off[1], False))
+            self.steps.append(("g", "G1 X%s Y%s" % (fmt_mm(tx), fmt_mm(ty)), {}))
+            self.steps.append(("g", "G1 X1 Y1", {}))
+            self.steps.append(("at", on[0], on[1], False))
+            self.steps.append(("g", "G1 X%s Y%s" % (fmt_mm(tx), fmt_mm(ty)), {}))
+            self.steps.append(("g", "G1 X1 Y1", {}))
+            self.event(rng.choice(END_EVENTS))
+            return
+        if known and self.exactOnly and rng.random() < 0.12:
+            # the job completes right after the move that entered a region (nothing else was
+            # held back in that episode; an enter script may have been sent)
+            reg = rng.choice(known)
+            if reg["t"] == "rect":
+                tx, ty = (reg["x1"] + reg["x2"]) // 2, (reg["y1"] + reg["y2"]) // 2
+            else:
+                tx, ty = reg["cx"], reg["cy"]
+            self.steps.append(("g", "G90", {}))
+            retracting = rng.random() < 0.4
+            self.steps.append(("g", "G1 X1 Y1 E1" if retracting else "G1 X1 Y1", {}))
+            self.steps.append(("g", "G1 X%s Y%s%s" % (fmt_mm(tx), fmt_mm(ty),
+                                                      " E0" if retracting else ""), {}))
+            for text in rng.choice([[], ["M107"], ["M104 S0", "M84"]]):
+                self.steps.append(("g", text, {}))
+            self.steps.append(("hook", "gcode", "afterPrintDone"))
+            self.event(rng.choice(END_EVENTS))
+            return
         if known and self.exactOnly and rng.random() < 0.1:
             # the job is restarted (print-started again, no end event) while an episode with
             # pending commands is open: the restart resets everything, so the after-print hook of
@@ -434,7 +537,8 @@ class PluginGen(object):
             # start from a configured @-command table
             from harness.rig import DEFAULT_AT
             table = rng.choice([list(gen_motion.CUSTOM_AT), list(gen_motion.CUSTOM_AT),
-                                list(DEFAULT_AT), []])
+                                list(DEFAULT_AT), [], list(INTERLEAVED_AT),
+                                list(reversed(INTERLEAVED_AT))])
             self.steps.append(("set", "atCommandActions",
                                [{"command": c, "parameterPattern": p, "action": a,
                                  "description": ""} for c, p, a in table],
@@ -451,6 +555,11 @@ class PluginGen(object):
                                [{"gcode": c, "mode": m, "description": ""}
                                 for c, m in table.items()], table))
             self.store["xg"] = table
+            self.event("SettingsUpdated")
+        if self.focus == "hook" and rng.random() < 0.5:
+            text, cmds = rng.choice([t for t in SCRIPT_TEXTS["enter"] if t[1]])
+            self.steps.append(("set", "enteringExcludedRegionGcode", text, cmds))
+            self.store["enter"] = cmds
             self.event("SettingsUpdated")
         if self.focus in ("hook", "mixed") and rng.random() < 0.4:
             self.steps.append(("set", "mayShrinkRegionsWhilePrinting", True, None))
